@@ -388,41 +388,44 @@ _MORE = {
     "C01": "Later additions: a third of the histories run with checkpoint.autoReset=latest (the crash oracle skips the documented start of a "
            "group without any checkpoint); transient / final stream ends and rebalances inside the histories (an event is identified by its "
            "seqno: one acknowledgement of either delivery settles it); unit RollbackRestart on the wire: the restart is answered with a "
-           "ROLLBACK and the re-stream may omit the checkpointed seqno - everything above the checkpoint must be delivered again.",
+           "ROLLBACK and the re-stream may omit the checkpointed seqno - everything above the checkpoint must be delivered again. Round 5: unit TornFile (file backend, child process per history: the last step is a crash inside the file write of a save, leaving an empty file or a prefix; the restart must refuse to start or resume at/before the first unsettled event).",
     "C02": "Later additions: histories on the real file backend (every assigned vBucket's last value is in the file; restart resumes from it); "
            "read-only metadata mode through the real Dcp.Start() with injected and file backends, incl. a second session in the same process "
-           "after another member advanced the stored checkpoints.",
+           "after another member advanced the stored checkpoints. Round 5: the collection-aware sequence-number query answers a generated share of the vBucket's high seqno (the plain query, which Load must use, answers the high seqno).",
     "C04": "Later additions: failovers and transient stream ends (re-request on the new branch) inside the histories, so that late acknowledgements "
-           "of old-branch events meet a position settled on the new branch.",
+           "of old-branch events meet a position settled on the new branch. Round 5: unit FileHistory (file backend: Load returns every vBucket in the file, rebalances only shrink the range, late acknowledgements of lost vBuckets must leave the stale entry where it is).",
     "C05": "Later additions: savequeue (a Save issued while one is in flight); the same histories on the file backend with the file read back after "
            "every save; unit CouchbaseBackend: real cbMetadata on the simulated node, which rejects a generated subset of ONE save's per-vBucket "
-           "writes (the others complete before / after) - after the next undisturbed save every acknowledged position must be on the node.",
+           "writes (the others complete before / after) - after the next undisturbed save every acknowledged position must be on the node. Round 5: failovers and transient stream ends in the save histories (late acknowledgements of the previous history branch).",
     "C06": "Later additions: transient stream ends (the re-request tuple is judged like every other offset handed out); unit RollbackBranch on the "
            "wire: after a server-requested rollback every delivered offset carries the vbUUID of the branch named by the second response.",
-    "C08": "Later additions: none to the generator; the executor is shared with C01 RollbackRestart and C06 RollbackBranch.",
+    "C08": 'Later additions: none to the generator before round 5; the executor is shared with C01 RollbackRestart and C06 RollbackBranch. Round 5: Mid (the session starts normally, its stream ends with a transient cause and the re-request inside the running session is answered with the rollback) and Mitig (rollback mitigation on: real OBSERVE_SEQNO polling of the simulated node, everything persisted and reported once, quiet afterwards).',
     "C10": "Later additions: leadership is taken through the real handler (stream.NewLeaderElection(...).OnBecomeLeader) with a generated number of "
-           "followers registered before the callback runs.",
+           "followers registered before the callback runs. Round 5: unit RegisterRPC (real RPC server and clients on localhost: registrations arrive in a generated order, followers register again; the leader's list - from which the monitor numbers the followers - stays in join order).",
     "C11": "Later additions: mode busdelay (real Dcp, bus publications during close / delay / reopen with the configured delay); gate variant of "
-           "direct mode (rollback mitigation polling a simulated cluster, an event parked in the gate when the first burst begins).",
+           "direct mode (rollback mitigation polling a simulated cluster, an event parked in the gate when the first burst begins). Round 5: unit ReopenHistory (history engine, oracle C11: after every rebalance the live stream set is the whole range of the latest membership; a transient end of a freshly requested stream from inside AfterStreamStart).",
     "C12": "Later additions: rebalances and STREAM_END from inside CloseStream in the histories; a transient end injected from the AfterStreamStart "
-           "callback of a rebalance's reopen; finite mode with immediate acknowledgement and transient ends at the sampled end.",
+           "callback of a rebalance's reopen; finite mode with immediate acknowledgement and transient ends at the sampled end. Round 5: a third of the histories end with a shutdown by cancel during which the server ends another vBucket's stream with a transient cause (no new request, active count as expected).",
     "C13": "Later additions: server 5.0.0 (serial close); Couchbase heart-beat membership (incl. Close while a monitor round is in flight); a "
            "server-initiated stream end during Close; pings that start failing shortly before Close (Close inside the retry wait of a failing "
            "health round); after the quiet window no goroutine may execute library code; units StartStop (Start();Stop() back to back at the "
-           "checkpoint schedule's and the rollback mitigation's own API) and Fixed (replays of the three repaired shutdown defects).",
+           "checkpoint schedule's and the rollback mitigation's own API) and Fixed (replays of the three repaired shutdown defects). Round 5: a stream ended for good before Close() whose close request is answered no-such-stream; the client stopping by itself because every stream ended.",
     "C14": "Later additions: library-internal keys arrive as mutation / deletion / expiration; the connector's own documents configured in the "
-           "streamed bucket / another bucket / a file.",
+           "streamed bucket / another bucket / a file. Round 5: in half of the histories reserved-key events also arrive while an earlier document event of the vBucket is unacknowledged.",
     "C15": "Later additions: fault classes end_during_open, partial_load, file_dump {partial, corrupt, isdir, notdir}, seq_omit (a successful "
-           "sequence-number query without an entry for an assigned vBucket).",
+           "sequence-number query without an entry for an assigned vBucket). Round 5: fault class rebalance_fault (fault-free start-up; load or sequence-number failure at the reopen of a rebalance).",
     "C16": "Later additions: scrapes from inside the lifecycle callbacks ASStop / BSStop / ARS / BRE / BSStart of a rebalance; a third of the "
            "histories with dcp.listener.skipUntil (dropped events are not 'accepted'); a share of the histories scrapes through the real HTTP API "
-           "(child process: GET /metrics parsed from the exposition text instead of Collect(), GET /states/offset compared with the tracked positions).",
-    "C17": "Later additions: zero-padded numbers in plain and unit spellings.",
+           "(child process: GET /metrics parsed from the exposition text instead of Collect(), GET /states/offset compared with the tracked positions). Round 5: transient stream ends and failovers in the histories (active-stream gauge after a re-request).",
+    "C17": "Later additions: zero-padded numbers in plain and unit spellings. Round 5: every boolean spelling for the metadata secureConnection override, main setting both ways.",
     "C18": "Later additions: a version text the parser itself rejects, a reply without the field, an error document: the client must not start.",
     "C19": "Later additions: slow pings (a round longer than five retry waits); failure kinds plain error / deadline exceeded / canceled / "
-           "(partial result, error).",
+           "(partial result, error). Round 5: unit ShutdownPaths (real Dcp.Start in a child process stopped by Close / signal / the end of every stream: no ping after Start returned).",
     "C20": "Later additions: unit CheckpointRead (cbMetadata.Load in a child process against silent / erroring nodes and attribute-less documents); "
-           "after every wire case with a late or missing reply no closure of the wrappers may be blocked on a gocbcore goroutine.",
+           "after every wire case with a late or missing reply no closure of the wrappers may be blocked on a gocbcore goroutine. Round 5: unit SeqNosComplete (64..1024 vBuckets, 1-3 nodes, back-to-back GetVBucketSeqNos calls; the result holds every vBucket with the node's value at the moment of return).",
+    "C03": "Later additions (round 5): unit RebalanceHistory (history engine with oracle C03 and rebalances; 1-3 events delivered on the re-requested streams from inside AfterStreamStart, while the rebalance is still completing).",
+    "C07": "Later additions (round 5): the gate unit feeds every event kind (deletion, expiration, system events, seqno-advanced) and records every kind at the listener.",
+    "C09": "Later additions (round 5): unit StreamFollowsMembership (real stream + real discovery object; 2-5 membership events placed idle / while closing / while the reopen is pending / at the start of / inside the reopen through lifecycle callbacks; the live stream set ends up as the partition of the last info).",
 }
 for _k, _v in _MORE.items():
     CHECKS[_k]["rule"] += " " + _v
